@@ -166,7 +166,7 @@ def body(ctx):
         ctx.count(("check", name, tuple(present)), got != "none", "check_name")
 
     # ---------------- (4) end to end
-    fmts = ["%0.5f", "%0.2f", "%0.8e"]
+    fmts = ["%0.5f", "%0.2f", "%0.8e", "%0.10f", "%0.7f"]
     e2e = work / "e2e"
     for it in range(ctx.scale(150, 1500)):
         shutil.rmtree(e2e, ignore_errors=True)
@@ -182,11 +182,11 @@ def body(ctx):
         for cn in colnames:
             kind = rng.choice(["float", "int", "text"])
             if kind == "float":
-                cols[cn] = [rng.choice([1, -1]) * 10 ** rng.uniform(-3, 6) * rng.random() for _ in range(nrow)]
+                cols[cn] = [rng.choice([1, -1]) * 10 ** rng.uniform(-9, 6) * rng.random() for _ in range(nrow)]
             elif kind == "int":
                 cols[cn] = [rng.randint(-10 ** 6, 10 ** 6) for _ in range(nrow)]
             else:
-                cols[cn] = ["t" + "".join(rng.choice(string.ascii_letters + ' ,":#;') for _ in range(rng.randint(1, 6))) + "z" for _ in range(nrow)]
+                cols[cn] = [rng.choice(["t", "t", "#", "#1 ", "x:"]) + "".join(rng.choice(string.ascii_letters + ' ,":#;') for _ in range(rng.randint(1, 6))) + "z" for _ in range(nrow)]
         df = pd.DataFrame(cols)
         comment = {gen_key(rng): gen_val(rng) for _ in range(rng.randint(0, 3))}
         mode = rng.choice(["plain", "zip.csv", "zip.zip", "zip.noext", "zip.dots", "archive"])
@@ -240,6 +240,7 @@ def body(ctx):
                     a = np.asarray(a, dtype=float)
                     b = np.asarray(b, dtype=float)
                     tol = 0.5000001 * 10.0 ** (-digits) * (np.maximum(1.0, 10.0 ** np.floor(np.log10(np.abs(a) + 1e-300))) if ff.endswith("e") else 1.0)
+                    tol = tol + 4 * np.spacing(np.abs(a))   # the decimal text is read back to the nearest double
                     if not np.all(np.abs(a - b) <= tol):
                         ctx.finding("e2e/float_precision", "numeric values differ by more than the float format precision", {**case, "column": cn, "wrote": a[:3].tolist(), "read": b[:3].tolist()})
         for k, v in comment.items():
